@@ -207,6 +207,8 @@ def rpc_reply(chk: Check) -> None:
     rebinds = [n for n in cfg.nodes if n.kind == 'stmt' and isinstance(n.ast, ast.Assign) and var is not None and norm(n.ast.targets[0]) == var and n not in asg]
     good &= all(isinstance(n.ast.value, ast.Await) and norm(n.ast.value.value) == var for n in rebinds)
     chk.ob('FWD-rpc-reply', rc, good, 'the reply is the value the control method returned (nested futures awaited), nothing else', kind='reply-is-call-result')
+    from .common import cancellation_delivered
+    cancellation_delivered(chk, 'FWD-rpc-reply', 'processes.Process._schedule_rpc.run_callback', 'kiwi_future', 'the reply to a remote control request')
     # every message is actioned: each call of _schedule_rpc schedules its own callback and answers through its own new future
     off = chk.ctx.facts.analyse(outer)
     ocfg = off.cfg
